@@ -2,19 +2,20 @@
 # Apply each property-preserving change under /verif/benign/*.diff to /repo, run the
 # quick checks, undo it.  A VIOLATION or a non-zero exit on any of them is a false alarm
 # of the machinery.   tools/benign_verify.sh [patch...]   (default: all)
+REPO="${REPO:-/repo}"
 cd "$(dirname "$0")/.." || exit 2
 patches=("$@"); [ ${#patches[@]} -eq 0 ] && patches=(benign/*.diff)
-[ -z "$(git -C /repo status --short)" ] || { echo "/repo is not clean"; exit 2; }
+[ -z "$(git -C "$REPO" status --short)" ] || { echo "$REPO is not clean"; exit 2; }
 for f in "${patches[@]}"; do
   name=$(basename "$f" .diff)
-  git -C /repo apply "$f" || { echo "$name: patch does not apply"; continue; }
+  git -C "$REPO" apply "$PWD/$f" || { echo "$name: patch does not apply"; continue; }
   res=""
   for p in ${PROPS:-C01 C05 C06 C07 C08 C09 C10 C12 C15 C18 C19}; do
     ./check $p quick > "/tmp/benign-$name-$p.log" 2>&1; rc=$?
     res="$res $p=$rc"
     if [ $rc -ne 0 ]; then grep -E "VIOLATION|violation tally|harness" "/tmp/benign-$name-$p.log" | cut -c1-300 | sed "s/^/    $name $p: /"; fi
   done
-  git -C /repo checkout -- .
+  git -C "$REPO" checkout -- .
   echo "$name:$res"
 done
 ./check setup > /dev/null
